@@ -7,12 +7,12 @@ package persistent
 // parent chain. Sets are objects of a read-only linked heap: a set is a reference (0 = nil), its fields are
 // functions of the reference, and the chain may have any length (no bound); the model is the recursive predicate
 // osmember. (On a cyclic chain the real code does not terminate; partial correctness.) The item map of each level is
-// seen through orderedmap's abstract view omhas / omnonempty.
+// seen through orderedmap's abstract view omhas / omlen.
 //@ ufun osparent(Int) Int
 //@ ufun ositems(Int) Int
 //@ heapobj OrderedSet Parent=osparent items=ositems
 //@ recfun osmember(s int, x int) bool = s != 0 && ((ositems(s) != 0 && omhas(ositems(s), x)) || osmember(osparent(s), x))
-//@ recfun osnonempty(s int) bool = s != 0 && ((ositems(s) != 0 && omnonempty(ositems(s))) || osnonempty(osparent(s)))
+//@ recfun osnonempty(s int) bool = s != 0 && ((ositems(s) != 0 && omlen(ositems(s)) > 0) || osnonempty(osparent(s)))
 
 //@ func (*OrderedSet[T]).Contains
 //@   props C51
